@@ -37,12 +37,27 @@ struct ArenaState {
     system_depth: u32,
     allocs: u64,
     peak: usize,
+    /// 0 = still inside the primary slot; otherwise 1 + index of the big slot the run overflowed into
+    overflow: usize,
+    /// bytes used in the primary slot when the run overflowed
+    primary_peak: usize,
+    /// may this run overflow (only runs whose primary slot is a small one)
+    may_overflow: bool,
 }
+
+/// how much of its overflow slot a run may use before it is declared runaway
+pub const OVERFLOW_LIMIT: usize = 6 << 30;
 
 thread_local! {
     static ARENA: Cell<ArenaState> = const { Cell::new(ArenaState {
         cur: 0, end: 0, last: 0, pad_every: 0, pad_bytes: 0, count: 0, system_depth: 0, allocs: 0, peak: 0,
+        overflow: 0, primary_peak: 0, may_overflow: false,
     }) };
+}
+
+thread_local! {
+    /// cheap mirror of `ArenaState::overflow != 0` for the per-invariant test
+    static OVERFLOWED: Cell<bool> = const { Cell::new(false) };
 }
 
 static BUSY: [AtomicU64; (NUM_SLOTS + NUM_BIG_SLOTS) / 64] = [const { AtomicU64::new(0) }; (NUM_SLOTS + NUM_BIG_SLOTS) / 64];
@@ -61,18 +76,34 @@ unsafe impl GlobalAlloc for SimAlloc {
             return System.alloc(layout);
         }
         let align = layout.align().max(16);
-        let start = (st.cur + align - 1) & !(align - 1);
+        let mut start = (st.cur + align - 1) & !(align - 1);
         let mut next = start + layout.size();
         st.count += 1;
-        if st.pad_every != 0 && st.count % st.pad_every == 0 {
-            next += st.pad_bytes as usize;
-        }
+        let pad = if st.pad_every != 0 && st.count % st.pad_every == 0 { st.pad_bytes as usize } else { 0 };
+        next += pad;
         if next > st.end {
-            // arena exhausted: harness error, never a verdict
-            let msg = b"rsdd-sim: arena exhausted: a run needs more than its arena slot\n";
-            libc::write(2, msg.as_ptr() as *const libc::c_void, msg.len());
-            // die on a signal so that the supervisor isolates the in-flight run
-            libc::abort();
+            if st.may_overflow && st.overflow == 0 && layout.size() + pad + 4096 < OVERFLOW_LIMIT {
+                // The run outgrew its slot: continue in the big slot that belongs to it (a function of
+                // the primary slot only, so addresses stay reproducible). The run is flagged and the
+                // simulator abandons it at the next invariant evaluation (memory budget, not a verdict).
+                let slot = ((st.end - 1 - ARENA_BASE) >> SLOT_BITS) % NUM_BIG_SLOTS;
+                let base = claim(slot, true);
+                st.primary_peak = st.peak;
+                st.overflow = 1 + slot;
+                OVERFLOWED.set(true);
+                st.cur = base + 64;
+                st.end = base + OVERFLOW_LIMIT;
+                st.peak = base;
+                st.last = 0;
+                start = (st.cur + align - 1) & !(align - 1);
+                next = start + layout.size() + pad;
+            } else {
+                // a runaway allocation: the call is not going to return in any useful sense
+                let msg = b"rsdd-sim: arena exhausted: a run needs more than its slot and its overflow budget\n";
+                libc::write(2, msg.as_ptr() as *const libc::c_void, msg.len());
+                // die on a signal so that the supervisor isolates the in-flight run
+                libc::abort();
+            }
         }
         st.last = start;
         st.cur = next;
@@ -142,9 +173,9 @@ fn slot_geometry(slot: usize, big: bool) -> (usize, usize, usize) {
     }
 }
 
-pub fn arm_sized(slot: usize, big: bool, offset: usize, pad_every: u32, pad_bytes: u32) {
-    assert!(slot < if big { NUM_BIG_SLOTS } else { NUM_SLOTS });
-    assert!(ARENA.get().cur == 0, "arena already armed on this thread");
+/// Wait for the slot, map it if this process has not done so yet, return its base address.
+/// Allocation-free (it is called from inside the allocator when a run overflows).
+fn claim(slot: usize, big: bool) -> usize {
     // wait for the slot (affects wall time only)
     let (base, len, idx) = slot_geometry(slot, big);
     let (w, b) = (idx / 64, idx % 64);
@@ -169,17 +200,22 @@ pub fn arm_sized(slot: usize, big: bool, offset: usize, pad_every: u32, pad_byte
             )
         };
         if p as usize != base {
-            eprintln!(
-                "rsdd-sim: cannot map arena slot {} at {:#x} (got {:#x}, errno {}) — harness error",
-                slot,
-                base,
-                p as usize,
-                std::io::Error::last_os_error()
-            );
-            std::process::exit(2);
+            let msg = b"rsdd-sim: cannot map an arena slot at its fixed address -- harness error\n";
+            unsafe {
+                libc::write(2, msg.as_ptr() as *const libc::c_void, msg.len());
+                libc::_exit(2);
+            }
         }
         MAPPED[idx].store(true, Ordering::Release);
     }
+    base
+}
+
+pub fn arm_sized(slot: usize, big: bool, offset: usize, pad_every: u32, pad_bytes: u32) {
+    assert!(slot < if big { NUM_BIG_SLOTS } else { NUM_SLOTS });
+    assert!(ARENA.get().cur == 0, "arena already armed on this thread");
+    let base = claim(slot, big);
+    let len = slot_geometry(slot, big).1;
     ARENA.set(ArenaState {
         cur: base + 64 + (offset & !15),
         end: base + len,
@@ -190,7 +226,16 @@ pub fn arm_sized(slot: usize, big: bool, offset: usize, pad_every: u32, pad_byte
         system_depth: 0,
         allocs: 0,
         peak: base,
+        overflow: 0,
+        primary_peak: 0,
+        may_overflow: !big,
     });
+}
+
+/// did the current run outgrow its primary slot?
+#[inline]
+pub fn overflowed() -> bool {
+    OVERFLOWED.get()
 }
 
 /// Disarm and unmap. Nothing allocated in the arena may be touched afterwards.
@@ -212,18 +257,33 @@ pub fn disarm_sized(slot: usize, big: bool) -> ArenaStats {
         system_depth: 0,
         allocs: 0,
         peak: 0,
+        overflow: 0,
+        primary_peak: 0,
+        may_overflow: false,
     });
-    unsafe {
-        let used = (st.peak.saturating_sub(base) + 4095) & !4095;
-        if used > 0 {
-            libc::madvise(base as *mut libc::c_void, used, libc::MADV_DONTNEED);
+    OVERFLOWED.set(false);
+    let release = |base: usize, peak: usize, idx: usize| {
+        unsafe {
+            let used = (peak.saturating_sub(base) + 4095) & !4095;
+            if used > 0 {
+                libc::madvise(base as *mut libc::c_void, used, libc::MADV_DONTNEED);
+            }
         }
+        let (w, b) = (idx / 64, idx % 64);
+        BUSY[w].fetch_and(!(1 << b), Ordering::Release);
+    };
+    let mut bytes = st.peak.saturating_sub(base);
+    if st.overflow != 0 {
+        let (obase, _olen, oidx) = slot_geometry(st.overflow - 1, true);
+        release(obase, st.peak, oidx);
+        release(base, st.primary_peak, idx);
+        bytes = st.primary_peak.saturating_sub(base) + st.peak.saturating_sub(obase);
+    } else {
+        release(base, st.peak, idx);
     }
-    let (w, b) = (idx / 64, idx % 64);
-    BUSY[w].fetch_and(!(1 << b), Ordering::Release);
     ArenaStats {
         allocs: st.allocs,
-        bytes: st.peak.saturating_sub(base),
+        bytes,
     }
 }
 
